@@ -13,12 +13,16 @@ CLAIMS = {
     # id: (technique, design_ref, extra level text)
     "C01": ("path-sensitive must-pass-through (gate) and ordering rules over Clang CFGs with flag tracking", "§4 C01",
             "every accept exit of node/token reuse is dominated by all reuse checks with the required outcome"),
+    "C02": ("who-may-write tables for cached summary fields, bottom-up ordering rule, pairing rule for error-cost propagation over Clang CFGs", "§4 C02",
+            "advertised child/descendant counts are the summariser's; rotations re-summarise bottom-up; error cost always reaches the parent and has_error is cost > 0"),
     "C04": ("must-pass-through gates with enum-flag tracking over Clang CFGs; who-may-append table for TSRangeArray", "§4 C04",
             "a pair of subtrees is skipped only after every difference test and the included-range-difference test failed; changed steps are recorded; ranges appended only via the merging helper"),
     "C06": ("sibling agreement (CFG isomorphism under substitution), field coverage of cursor entries, index-width cast scan, gates on field selection", "§4 C06",
             "byte/point and all/named variants are the same algorithm; iterators keep the structural-index discipline; no narrowed tree index"),
     "C09": ("field-coverage classification of parser/lexer state + all-paths reset rules + resume-path store discipline over Clang CFGs", "§4 C09",
             "every piece of parser state is reset between documents and none is clobbered when a cancelled parse is resumed"),
+    "C10": ("ordering rules (mark + write back every visited node), licensed-skip monitor, gates on early loop exit and in-place inline rewrite, field coverage of leaf promotion", "§4 C10",
+            "everything on the edited path is marked; a child is skipped only by the look-ahead-aware tests; stored ranges and stand-alone point/node edits use the same entry points"),
     "C11": ("pairing rule (flag set before every exhaustion-caused discard), field coverage of cursor re-initialisation, gate on match removal", "§4 C11",
             "a match limit that drops matches is always reported; re-executing a cursor starts from clean per-execution state"),
     "C13": ("must-pass-through gates on the range setter's validation loop and on the lexer's range-boundary handling; wiring checks of what the tree records", "§4 C13",
